@@ -301,15 +301,25 @@ where
                 &self.msg,
                 self.funds,
             )
-            .map_err(|err| {
-                if err.is::<Error>() {
-                    err.downcast::<Error>().unwrap()
-                } else if err.is::<StdError>() {
-                    err.downcast::<StdError>().unwrap().into()
-                } else {
-                    StdError::generic_err(err.to_string()).into()
-                }
-            })
+            .map_err(downcast_error)
+    }
+}
+
+/// Maps an error reported by the [cw_multi_test] chain to the error type of the contract.
+///
+/// An error returned by a contract handler is handed back as it is. Failures raised by the chain
+/// itself (e.g. insufficient funds, migration by an account which is not the admin) are not
+/// values of the contract error type and are wrapped into a generic [StdError].
+pub fn downcast_error<Error>(err: anyhow::Error) -> Error
+where
+    Error: From<StdError> + Debug + Display + Send + Sync + 'static,
+{
+    if err.is::<Error>() {
+        err.downcast::<Error>().unwrap()
+    } else if err.is::<StdError>() {
+        err.downcast::<StdError>().unwrap().into()
+    } else {
+        StdError::generic_err(err.to_string()).into()
     }
 }
 
@@ -330,7 +340,7 @@ where
 impl<'a, 'app, Error, Msg, MtApp, ExecC> MigrateProxy<'a, 'app, Error, Msg, MtApp, ExecC>
 where
     Msg: Serialize + Debug,
-    Error: Debug + Display + Send + Sync + 'static,
+    Error: From<StdError> + Debug + Display + Send + Sync + 'static,
     ExecC: cosmwasm_std::CustomMsg + 'static,
     MtApp: Executor<ExecC>,
 {
@@ -358,7 +368,7 @@ where
                 &self.msg,
                 new_code_id,
             )
-            .map_err(|err| err.downcast().unwrap())
+            .map_err(downcast_error)
     }
 }
 
